@@ -56,6 +56,13 @@ pub trait Tracker {
     fn state<'a>(&self, _w: &[&str], _resp: &'a str) -> StateObs<'a> {
         StateObs::Unknown
     }
+    /// For a panic of op `w`: the class of the CONFIGURATION in force (from the op lines of the case, never from a
+    /// response), when a recorded panic finding of this component exists only under particular configurations.  It
+    /// becomes part of the oracle key (`...@<file>:<message>+<class>`), so the same panic under an ordinary
+    /// configuration is a different key (a violation, not the recorded finding).
+    fn config_class(&self, _w: &[&str]) -> Option<String> {
+        None
+    }
 }
 
 pub enum StateObs<'a> {
@@ -137,6 +144,13 @@ impl CaseClass {
                 forced
             }
         }
+    }
+
+    /// configuration class of the component addressed by `line` (see `Tracker::config_class`)
+    pub fn config_class(&self, line: &str) -> Option<String> {
+        let w: Vec<&str> = line.split_ascii_whitespace().collect();
+        let comp = *w.first()?;
+        self.trackers.get(comp)?.as_ref()?.config_class(&w)
     }
 
     /// after the op ran: update the ghost state; taint the case when the op was outside the contract
